@@ -243,6 +243,11 @@ func c18InviteCheck(ctx *vfCtx, c c18InviteCase) {
 
 func c18GenInvite(t *rapid.T) c18InviteCase {
 	c := c18InviteCase{Version: evGenVersion(t), TargetLocal: rapid.IntRange(0, 3).Draw(t, "local") == 0}
+	if rapid.IntRange(0, 3).Draw(t, "pseudoRoom") == 0 {
+		// rooms with pseudo IDs have a handshake of their own (SendInviteV3, a self-verifying answer):
+		// a quarter of the cases, not one in sixteen
+		c.Version = "org.matrix.msc4014"
+	}
 	c.Mode = rapid.SampledFrom([]string{"hostile", "hostile", "hostile", "hostile", "echo", "error"}).Draw(t, "mode")
 	c.NoStripped = rapid.IntRange(0, 3).Draw(t, "noStripped") == 0
 	if c.Version == "org.matrix.msc4014" && rapid.Bool().Draw(t, "nilQuerier") {
